@@ -700,6 +700,7 @@ pub fn run_scenario(spec: &Value) -> Vec<Value> {
     POPS.with(|p| p.borrow_mut().clear());
     USED.with(|u| u.borrow_mut().clear());
     SRC_DATA.with(|d| d.borrow_mut().clear());
+    crate::blocks::TMPDIRS.with(|t| t.borrow_mut().clear());
     NUM_SCALE.with(|c| c.set(1.0));
     rustradio::verif::trace_start();
     let mut log = Vec::new();
@@ -733,6 +734,8 @@ pub fn run_scenario(spec: &Value) -> Vec<Value> {
         "seed": seed, "id": spec["id"],
         "sync": spec["sync"].as_bool().unwrap_or(false), "close": spec["close"].as_bool().unwrap_or(false),
         "allow_err": spec["allow_err"].as_bool().unwrap_or(false),
+        "infinite": spec["infinite"].as_bool().unwrap_or(false), "finite_source": spec["finite_source"].as_bool().unwrap_or(false),
+        "partial": spec["no_settle"].as_bool().unwrap_or(false),
         "fn": if spec["fn"].is_object() { spec["fn"].clone() } else { json!({"kind": "none"}) },
         "tagmap": if spec["tagmap"].is_object() { spec["tagmap"].clone() } else { json!({"kind": "none", "arg": 0}) }}));
     let mode = spec["mode"].as_str().unwrap_or("ref");
@@ -754,8 +757,10 @@ pub fn run_scenario(spec: &Value) -> Vec<Value> {
             // output stream is full most of the time; style 4 = back-pressure
             // with medium drains.
             let style = spec["style"].as_u64().map(|x| x as usize).unwrap_or_else(|| rng.below(4));
+            // Like the runners, the bench does not call work() again after EOF.
+            let mut saw_eof = false;
             for _ in 0..steps {
-                let r = rng.below(10);
+                let r = if saw_eof { rng.below(5) } else { rng.below(10) };
                 if r < 3 && !rig.ins.is_empty() {
                     let i = rng.below(rig.ins.len());
                     let k = match style {
@@ -776,10 +781,13 @@ pub fn run_scenario(spec: &Value) -> Vec<Value> {
                         _ => 1 + rng.below(6),
                     };
                     do_env(&mut rig, &json!({"op": "drain", "j": j + 1, "k": k}), &mut log);
-                } else {
+                } else if !saw_eof {
                     let ev = do_work(&mut rig, &mut log);
                     if ev["verdict"]["kind"] == "panic" {
                         break;
+                    }
+                    if ev["verdict"]["kind"] == "eof" {
+                        saw_eof = true;
                     }
                     // C09.3 probe: provide exactly what a wait verdict asked
                     // for on that stream, nothing else, and call again.
@@ -857,6 +865,10 @@ pub fn run_scenario(spec: &Value) -> Vec<Value> {
         log.push(json!({"ev": "final", "settled": ok,
             "left": rig.ins.iter().map(|p| p.left()).collect::<Vec<_>>(),
             "backlog": rig.ins.iter().map(|p| p.avail()).collect::<Vec<_>>()}));
+    }
+    if !panicked && spec["no_settle"].as_bool().unwrap_or(false) {
+        // no settling (e.g. infinite sources): judge what was produced so far
+        log.push(json!({"ev": "final", "settled": true, "partial": true, "left": [], "backlog": []}));
     }
     let _ = rustradio::verif::trace_take();
     log
